@@ -119,6 +119,23 @@ func digestValidatedAt(dig ssa.Value, at ssa.Instruction) (bool, string) {
 			}
 		}
 	}
+	// the digest lives in a path helper that was read through from its call site: it has to be validated
+	// on every path to the helper's own (successful) returns
+	if h := valueFunc(dig); h != nil && h != at.Parent() && !isAncestor(h, at.Parent()) {
+		all, n := true, 0
+		for _, ret := range core.Returns(h) {
+			if failureReturn(h, ret) {
+				continue
+			}
+			n++
+			if !validatedIn(h, ap, ret) {
+				all = false
+			}
+		}
+		if all && n > 0 {
+			return true, "Validate() nil edge on every path through " + h.Name()
+		}
+	}
 	fn := at.Parent()
 	cur := at
 	for fn != nil {
@@ -359,6 +376,47 @@ type pathCtx struct {
 	at     ssa.Instruction
 	strict bool
 	depth  int
+}
+
+// classifyAlgo classifies a digest.Algorithm value: it is fine when it comes from a validated digest
+// or from DigestAlgo(); when it is a parameter of an unexported helper, at every call site of the helper.
+func (pc pathCtx) classifyAlgo(recv ssa.Value, depth int) leafClass {
+	for _, oc := range originCalls(recv) {
+		if cc := core.Callee(oc); cc != nil {
+			if cc.Name() == "DigestAlgo" {
+				return leafClass{ok: true, what: "algorithm of a validated or default digest"}
+			}
+			if cc.Name() == "Algorithm" {
+				return pc.classifyCall(oc, -1)
+			}
+		}
+	}
+	if par := paramOfValue(recv); par != nil && depth < 3 && digValProg != nil {
+		h := par.Parent()
+		if h != nil && h.Object() != nil && !h.Object().Exported() {
+			idx := -1
+			for i, q := range h.Params {
+				if q == par {
+					idx = i
+				}
+			}
+			sites := digValProg.Callers(h)
+			if idx >= 0 && len(sites) > 0 {
+				for _, st := range sites {
+					c, ok := st.Site.(ssa.CallInstruction)
+					if !ok || core.CalleeFn(c) != h {
+						return leafClass{what: "digest algorithm of unknown origin"}
+					}
+					k := pathCtx{p: pc.p, at: st.Site, strict: pc.strict, depth: pc.depth}.classifyAlgo(core.CallArg(c, idx), depth+1)
+					if !k.ok {
+						return k
+					}
+				}
+				return leafClass{ok: true, what: "algorithm checked at every call site of " + h.Name()}
+			}
+		}
+	}
+	return leafClass{what: "digest algorithm of unknown origin"}
 }
 
 func isCleanCall(c *ssa.Call) bool {
@@ -623,17 +681,7 @@ func (pc pathCtx) classifyCall(c *ssa.Call, res int) leafClass {
 		recv := core.CallArg(c, 0)
 		if core.IsNamed(recv.Type(), "github.com/opencontainers/go-digest", "Algorithm") {
 			// Algorithm.String(): look at the digest the algorithm came from
-			for _, oc := range originCalls(recv) {
-				if cc := core.Callee(oc); cc != nil {
-					if cc.Name() == "DigestAlgo" {
-						return leafClass{ok: true, what: "algorithm of a validated or default digest"}
-					}
-					if cc.Name() == "Algorithm" {
-						return pc.classifyCall(oc, -1)
-					}
-				}
-			}
-			return leafClass{what: "digest algorithm of unknown origin"}
+			return pc.classifyAlgo(recv, 0)
 		}
 		ok, why := digestValidatedAt(recv, pc.at)
 		if ok {
@@ -987,6 +1035,38 @@ func derivesFromClean(v ssa.Value, d int, seen map[ssa.Value]bool) bool {
 					return true
 				}
 			}
+		}
+	}
+	return false
+}
+
+// valueFunc: the function a value is defined in (for a load, of the loaded cell or field base).
+func valueFunc(v ssa.Value) *ssa.Function {
+	for i := 0; i < 8 && v != nil; i++ {
+		switch x := v.(type) {
+		case *ssa.Parameter:
+			return x.Parent()
+		case *ssa.UnOp:
+			v = x.X
+		case *ssa.FieldAddr:
+			v = x.X
+		case *ssa.Field:
+			v = x.X
+		case *ssa.Alloc:
+			return x.Parent()
+		case ssa.Instruction:
+			return x.Parent()
+		default:
+			return nil
+		}
+	}
+	return nil
+}
+
+func isAncestor(anc, f *ssa.Function) bool {
+	for g := f; g != nil; g = g.Parent() {
+		if g == anc {
+			return true
 		}
 	}
 	return false
